@@ -37,6 +37,9 @@ def main():
     for _ in range(900 if quick else 12000):
         cfg = P.gen_cfg(rng)
         scenarios.append({"cfg": cfg, "ops": [P.gen_op(rng) for _ in range(rng.choice([1, 1, 2, 4]))]})
+    rp = P.replay_tokens()
+    if rp is not None:
+        scenarios = [P.scenario_of_line(rp)] if rp and rp[0] == "srv" else []
     outs, stats = P.run_scenarios(c, scenarios, P.monitor_c21, compare_c15_class=False)
 
     # ---- the daemon's counters -------------------------------------------------------------
